@@ -105,7 +105,7 @@ func runC19(c *Ctx) {
 			// readFileLines(l.Filename, l.StartLine, l.EndLine) for the same l
 			for _, call := range core.CallsIn(nj) {
 				cal := call.Common().StaticCallee()
-				if cal == nil || cal.Name() != "readFileLines" {
+				if cal == nil || !p.IsFn(cal, resultsPkg, "readFileLines") {
 					continue
 				}
 				for i, f := range []string{"Filename", "StartLine", "EndLine"} {
@@ -287,16 +287,64 @@ func checkHeadersFilter(c *Ctx, p *core.Prog, fns []*ssa.Function) {
 	}
 }
 
+// isHeadersFlag: v is the boolean parameter of the enclosing top-level function (classifyLicense has
+// exactly one), directly, spilled, or captured by a closure.
 func isHeadersFlag(v ssa.Value, fn *ssa.Function) bool {
+	top := fn
+	for top.Parent() != nil {
+		top = top.Parent()
+	}
+	var flag *ssa.Parameter
+	n := 0
+	for _, prm := range top.Params {
+		if isBool(prm.Type()) {
+			flag = prm
+			n++
+		}
+	}
+	if n != 1 {
+		return false
+	}
 	v = core.Unspill(v)
+	if v == ssa.Value(flag) {
+		return true
+	}
+	isCapturedFlag := func(fv *ssa.FreeVar) bool {
+		f := fv.Parent()
+		idx := -1
+		for i, x := range f.FreeVars {
+			if x == fv {
+				idx = i
+			}
+		}
+		if f.Parent() == nil || idx < 0 {
+			return false
+		}
+		for _, b := range f.Parent().Blocks {
+			for _, in := range b.Instrs {
+				if mc, ok := in.(*ssa.MakeClosure); ok && mc.Fn == f && idx < len(mc.Bindings) {
+					bd := mc.Bindings[idx]
+					if core.Unspill(bd) == ssa.Value(flag) {
+						return true
+					}
+					if al, ok := bd.(*ssa.Alloc); ok {
+						for _, r := range *al.Referrers() {
+							if st, ok := r.(*ssa.Store); ok && st.Addr == al && st.Val == ssa.Value(flag) {
+								return true
+							}
+						}
+					}
+				}
+			}
+		}
+		return false
+	}
 	switch x := v.(type) {
-	case *ssa.Parameter:
-		return x.Name() == "headers"
 	case *ssa.FreeVar:
-		return x.Name() == "headers"
+		return isBool(x.Type()) && isCapturedFlag(x)
 	case *ssa.UnOp:
 		if fv, ok := x.X.(*ssa.FreeVar); ok {
-			return fv.Name() == "headers"
+			return isCapturedFlag(fv)
 		}
 	}
 	return false
@@ -520,7 +568,7 @@ func checkExitStructure(c *Ctx, p *core.Prog) {
 				guardedEmpty = true
 			}
 			if cmp.Op == token.NEQ {
-				if e, ok := cmp.X.(*ssa.Call); ok && e.Call.StaticCallee() != nil && e.Call.StaticCallee().Name() == "outputJSON" {
+				if e, ok := cmp.X.(*ssa.Call); ok && p.IsFn(e.Call.StaticCallee(), cliPkg, "outputJSON") {
 					guardedJSON = true
 				}
 			}
